@@ -82,4 +82,32 @@ example :
       [⟨0, 1, 2, 2, 10⟩, ⟨2, 1, 3, 3, 12⟩, ⟨3, 1, 1, 1, 10⟩] := by
   decide +kernel
 
+/-! ### a listener that empties its own heterogeneous list while it runs (`list = HeterCallbackList()`) -/
+
+/-- The invocation in flight is not disturbed by a callback that empties the container: it reaches
+    exactly the callbacks bound to the selected prototype, in their order, once each (the calls are
+    those of `step`), the pending events are untouched, and afterwards every per-prototype list of
+    that key is empty while the lists of every other key are as `stepS` left them. -/
+theorem C14_clear_in_flight (sg : Sig) (sp : Spawn) (cl : Clear) (w : HW) (op : HOp) :
+    (stepC sg sp cl w op).2 = (step sg w op).2 ∧
+    (stepC sg sp cl w op).1.queue = (stepS sg sp w op).1.queue :=
+  ⟨stepC_calls sg sp cl w op, stepC_queue sg sp cl w op⟩
+
+theorem C14_cleared_lists (n : Nat) (w : HW) (key k p : Nat) (hp : p < 16) (hn : n ≤ 16) :
+    (clearKey n w key).lists (slot k p) = if k = key ∧ p < n then default else w.lists (slot k p) :=
+  clearKey_lists n w key k p hp hn
+
+/-- the rule of harness/seq_heter.cpp: the stand-alone list is event key 7 of the model; a callback of it
+    whose id ends in 8 assigns an empty list to it -/
+def harnessClear : Clear := fun key cb => key == 7 && cb % 10 == 8
+
+/-- non-vacuity: three int callbacks, the second empties the list while the invocation runs: all three
+    are called, in order, and the list is empty for the next invocation -/
+example :
+    let w1 := (run realSig {} [.listen 7 1 101, .listen 7 1 108, .listen 7 1 103]).1
+    let r := stepC realSig harnessSpawn harnessClear w1 (.dispatch 7 1 5)
+    r.2 = [.call 7 1 0 101 1 5, .call 7 1 1 108 1 5, .call 7 1 2 103 1 5, .res "unit"] ∧
+    (stepC realSig harnessSpawn harnessClear r.1 (.dispatch 7 1 6)).2 = [.res "unit"] := by
+  decide +kernel
+
 end Evp.Heter
